@@ -46,8 +46,23 @@ def pool (j : Json) : Except String Pool := do
          taints := ← listF taint j "taints", startupTaints := ← listF taint j "startupTaints",
          reqs := ← listF minExpr j "reqs", limitCPU := ← intO j "limitCPU", limitMem := ← intO j "limitMem" }
 
+def labelSel (j : Json) : Except String LabelSel := do
+  pure { matchLabels := ← labelsF j "matchLabels", matchExprs := ← listF kexpr j "matchExprs" }
+
+/-- an optional selector: absent / null = unset, an object (possibly `{}`) = set -/
+def labelSelO (j : Json) (k : String) : Except String (Option LabelSel) :=
+  match fldOpt j k with
+  | none => pure none
+  | some .null => pure none
+  | some v => do pure (some (← labelSel v))
+
+def strD (j : Json) (k : String) (d : String) : Except String String :=
+  match fldOpt j k with | none => pure d | some .null => pure d | some v => asStr v
+
 def podAff (j : Json) : Except String PodAff := do
-  pure { topologyKey := ← strF j "topologyKey", matchLabels := ← labelsF j "matchLabels", anti := ← boolF j "anti", required := ← boolF j "required" }
+  pure { topologyKey := ← strF j "topologyKey", matchLabels := ← labelsF j "matchLabels", anti := ← boolF j "anti", required := ← boolF j "required",
+         matchExprs := ← listF kexpr j "matchExprs", namespaces := ← listF asStr j "namespaces",
+         namespaceSelector := ← labelSelO j "namespaceSelector", matchLabelKeys := ← listF asStr j "matchLabelKeys" }
 
 def boolO (j : Json) (k : String) : Except String (Option Bool) :=
   match fldOpt j k with | none => pure none | some v => do pure (some (← asBool v))
@@ -55,7 +70,13 @@ def boolO (j : Json) (k : String) : Except String (Option Bool) :=
 def spread (j : Json) : Except String Spread := do
   pure { topologyKey := ← strF j "topologyKey", maxSkew := ← natF j "maxSkew", minDomains := ← natO j "minDomains",
          doNotSchedule := ← boolF j "doNotSchedule", matchLabels := ← labelsF j "matchLabels",
-         nodeAffinityHonor := ← boolO j "nodeAffinityHonor", nodeTaintsHonor := ← boolO j "nodeTaintsHonor" }
+         nodeAffinityHonor := ← boolO j "nodeAffinityHonor", nodeTaintsHonor := ← boolO j "nodeTaintsHonor",
+         matchExprs := ← listF kexpr j "matchExprs", matchLabelKeys := ← listF asStr j "matchLabelKeys" }
+
+def volume (j : Json) : Except String Volume := do
+  pure { name := ← strF j "name", claim := ← strF j "claim" }
+
+def nsOrDefault (s : String) : String := if s == "" then "default" else s
 
 def preferred (j : Json) : Except String Preferred := do
   pure { weight := ← intF j "weight", exprs := ← listF kexpr j "exprs" }
@@ -65,7 +86,8 @@ def pod (j : Json) : Except String Pod := do
          nodeSelector := ← labelsF j "nodeSelector",
          required := ← listF (listOf kexpr) j "required", preferred := ← listF preferred j "preferred",
          tolerations := ← listF toleration j "tolerations", hostPorts := ← listF hostPort j "hostPorts",
-         affinity := ← listF podAff j "affinity", spreads := ← listF spread j "spreads", daemon := ← boolD j "daemon" false }
+         affinity := ← listF podAff j "affinity", spreads := ← listF spread j "spreads", daemon := ← boolD j "daemon" false,
+         ns := nsOrDefault (← strD j "namespace" ""), volumes := ← listF volume j "volumes" }
 
 def node (j : Json) : Except String Node := do
   pure { name := ← strF j "name", pool := ← strF j "pool", it := ← strF j "it", zone := ← strF j "zone", ct := ← strF j "capacityType",
@@ -76,11 +98,26 @@ def daemonSet (j : Json) : Except String DaemonSet := do
   pure { name := ← strF j "name", cpu := ← intF j "cpu", mem := ← intF j "mem", nodeSelector := ← labelsF j "nodeSelector",
          tolerations := ← listF toleration j "tolerations", hostPorts := ← listF hostPort j "hostPorts" }
 
+def namespaceJ (j : Json) : Except String Namespace := do
+  pure { name := ← strF j "name", labels := ← labelsF j "labels" }
+
+def pv (j : Json) : Except String PV := do
+  pure { name := ← strF j "name", terms := ← listF (listOf kexpr) j "terms" }
+
+def storageClass (j : Json) : Except String StorageClass := do
+  pure { name := ← strF j "name", topologies := ← listF (listOf kexpr) j "topologies", immediate := ← boolD j "immediate" false }
+
+def pvc (j : Json) : Except String PVC := do
+  pure { name := ← strF j "name", ns := nsOrDefault (← strD j "namespace" ""), volumeName := ← strD j "volumeName" "",
+         storageClass := ← strD j "storageClass" "" }
+
 def scenario (j : Json) : Except String Scenario := do
   pure { its := ← listF it j "its", pools := ← listF pool j "pools", nodes := ← listF node j "nodes",
          daemonsets := ← listF daemonSet j "daemonsets", pods := ← listF pod j "pods",
          ignorePreferences := ← boolD j "ignorePreferences" false, bestEffortMinValues := ← boolD j "bestEffortMinValues" false,
-         parallelism := (← natO j "parallelism").getD 1, reservedCapacity := ← boolD j "reservedCapacity" false }
+         parallelism := (← natO j "parallelism").getD 1, reservedCapacity := ← boolD j "reservedCapacity" false,
+         namespaces := ← listF namespaceJ j "namespaces", storageClasses := ← listF storageClass j "storageClasses",
+         pvs := ← listF pv j "pvs", pvcs := ← listF pvc j "pvcs" }
 
 def snapReq (j : Json) : Except String Req := do
   pure { key := ← strF j "key", complement := ← boolF j "complement", values := ← listF asStr j "values",
